@@ -270,7 +270,7 @@ def run_json_wf(chk, n):
         items.append((G.render_json(rng, tree, version=rng.choice(["1", "1", "2"])), None, tree))
         models.append(files)
     rows = run_json_cases(chk, items, "wf")
-    dist = {"reports": n, "files": 0, "files_without_lines": 0, "files_with_lines_without_functions": 0, "files_with_functions_without_lines": 0, "line_entries": 0, "duplicate_line_entries": 0, "branch_entries": 0,
+    dist = {"reports": n, "files": 0, "files_without_lines": 0, "files_with_lines_without_functions": 0, "files_with_functions_without_lines": 0, "line_entries": 0, "duplicate_line_entries": 0, "lines_listed_in_several_entries": 0, "lines_whose_entries_sum_over_u64": 0, "lines_with_branches_in_several_entries": 0, "branch_entries": 0,
             "function_entries": 0, "float_counter_tokens": 0, "max_counter": 0, "serde_float_differs_from_correct_rounding": 0}
     dis = []
     for ((text, _, tree), case, ri, htree, rm), files in zip(rows, models):
@@ -315,6 +315,14 @@ def run_json_wf(chk, n):
             dist["files_with_functions_without_lines"] += bool(f["functions"]) and not f["lines"]
             dist["line_entries"] += len(f["lines"])
             dist["duplicate_line_entries"] += len(f["lines"]) - len({l["line_number"] for l in f["lines"]})
+            by = {}
+            for l in f["lines"]:
+                by.setdefault(l["line_number"], []).append(l)
+            for es in by.values():
+                if len(es) > 1:
+                    dist["lines_listed_in_several_entries"] += 1
+                    dist["lines_whose_entries_sum_over_u64"] += sum(G.ref_counter(e["count"]) for e in es) > U64
+                    dist["lines_with_branches_in_several_entries"] += sum(1 for e in es if e["branches"]) > 1
             dist["function_entries"] += len(f["functions"])
             toks = [g["execution_count"] for g in f["functions"]] + [l["count"] for l in f["lines"]] + [b for l in f["lines"] for b in l["branches"]]
             dist["branch_entries"] += sum(len(l["branches"]) for l in f["lines"])
@@ -592,6 +600,21 @@ def confirm_witnesses(chk):
     corpus("fixed 61ca3c1: count -1", "gcov_json",
            {"json": G.render_json(rng, [{"file": b"a.c", "functions": [], "lines": [{"line_number": "1", "count": "-1", "branches": []}]}])}, "err",
            "a counter that does not fit 64 bits (or is negative) must be rejected with an error: not clamped, not wrapped, not a panic")
+    # repaired C20/gcov-json-line-in-several-functions: `int f(..){..} int g(..){..}` on line 1, f run 3 times, g never;
+    # gcov lists line 1 once for f and once for g: the line ran 3 times and has the four branch outcomes of both
+    tree = [{"file": b"two.c",
+             "functions": [{"name": "f", "demangled_name": b"f", "start_line": "1", "execution_count": "3"},
+                           {"name": "g", "demangled_name": b"g", "start_line": "1", "execution_count": "0"}],
+             "lines": [{"line_number": "1", "count": "3", "branches": ["3", "0"], "function_name": "f"},
+                       {"line_number": "1", "count": "0", "branches": ["0", "0"], "function_name": "g"}]}]
+    case = {"json": G.render_json(rng, tree)}
+    a = G.results_from_impl(vlib.run_impl("gcov_json", [case], chk.pid)[0])
+    chk.count()
+    want = [[b"two.c".hex(), G.canon({1: 3}, {1: [True, False, False, False]}, {b"f": (1, True), b"g": (1, False)})]]
+    out["fixed: line listed for two functions (3 + 0)"] = "ok" if a[0] == "ok" and vlib.canon(a[1]) == vlib.canon(want) else str(a)[:200]
+    if a[0] != "ok" or vlib.canon(a[1]) != vlib.canon(want):
+        chk.violation({"kind": "oracle", "engine": "gcov_json", "case": case, "impl": a, "expected": want,
+                       "clause": "a line listed once per function sharing it has the sum of the entries' counts and the branches of every entry, in entry order"}, tag="corpus")
     # the remaining known finding: the report below says line 1 of a.c ran 28259282275385470e1 times; the binary64 that literal
     # denotes is 282592822753854688, serde_json without float_roundtrip reads 282592822753854720
     tree = [{"file": b"a.c", "functions": [{"name": "f", "demangled_name": b"f()", "start_line": "1", "execution_count": "1"}],
@@ -650,8 +673,8 @@ def run(chk):
                        "commas/colons/template brackets/UTF-8): implementation vs Gallina parse_gcov vs Gallina greport_denote vs the driver's reading; "
                        "text overflow: one number replaced by a value >= 2^64 (counts) or >= 2^32 (line numbers), must be Err in both; text malformed: "
                        "truncations, dropped leading records, token substitutions, byte flips (incl. non-UTF-8), implementation vs model on outcome class "
-                       "and results; JSON well-formed: the same models as gzip JSON with integer and binary64 spellings of the counters and duplicate line "
-                       "entries, implementation vs Gallina model fed with the tree serde_json produced (checked equal to the driver's tree) vs the driver's "
+                       "and results; JSON well-formed: the same models as gzip JSON with integer and binary64 spellings of the counters and lines listed "
+                       "in 2-3 entries (different function_name, with and without branches, sums crossing 2^64-1, interleaved with other lines), implementation vs Gallina model fed with the tree serde_json produced (checked equal to the driver's tree) vs the driver's "
                        "reading; JSON boundary: one counter or u32 field replaced by a boundary token; JSON malformed: truncated/corrupted gzip and JSON, "
                        "missing fields (outcome classes; an accepted mutant must agree with the model). non-trivial = agreed on every comparison made for "
                        "the case; distinct by input bytes")
@@ -662,7 +685,7 @@ def run(chk):
                                "formally UB in Rust and is modelled as byte-wise (observed to agree)"]
     chk.assumptions = ["text form: the grammar of gcov <= 7 (function:start,count,name ; lcount:line,count ; branch:line,kind); gcov 8's extra fields are outside the property",
                        "a floating-point JSON counter denotes the binary64 value serde_json reads; serde_json's float parser is trusted (deviations from correct rounding are counted, not judged)",
-                       "several entries for one line in a JSON file object: the later entry stands (gcov writes the file-level aggregate last)",
+                       "several entries for one line in a JSON file object (gcov lists a line once per function containing it): the line's count is the sum of the entries' counts clamped at 2^64-1 and its branches are the entries' branches in entry order; two functions under one demangled name: the later stands",
                        "recorded known finding: a floating-point JSON counter above 2^53 may be read one ulp off (serde_json without float_roundtrip); the 2^64 clamp, the parse_gcov_gz unwrap and the parse_gcov lcount-without-file panic are fixed (79d6ea6, 61ca3c1, 31d3a3d) and their witnesses are corpus cases"]
 
 
